@@ -71,7 +71,7 @@ m = {
  "hooks": {"guard": "abasic_verif",
    "enable": "rustflags --cfg abasic_verif in /verif/sim/.cargo/config.toml (simulator build of abasic-core / abasic-web only; the abasic and abasic-lsp binaries driven by clisim / lspsim are built without it by ./check build)",
    "baseline_off_cmd": "cd /repo && cargo test --workspace --no-fail-fast --offline",
-   "source_commits": ["65edd0b"], "add_only": True},
+   "source_commits": ["65edd0b", "a92e00c"], "add_only": True},
  "engines": [{"name": "abasic-sim", "path": "sim/", "serves_properties": sorted(checks),
    "kind_free_text": "deterministic simulator of the host<->interpreter turn-taking protocol (Rust; one PRNG seed per run; drivers sessim/websim/lspsim/clisim; 16 worker processes; abort attribution; ddmin minimiser; replay files)"}],
  "checks": [],
